@@ -134,6 +134,12 @@ def run(ctx):
         dscommon.run_family(ctx, "C14", fmt="text", limit=150, fresh=False, always_nontrivial=True)
         dscommon.run_family(ctx, "C14Two", fmt="text", limit=100, fresh=False, always_nontrivial=True)
         dscommon.run_family(ctx, "C14Range", fmt="text", limit=200, always_nontrivial=True)
+        # NetCDF files keep their own order: a climatology that lists exactly the common times / lead times / stations, in another order than
+        # the scored files, is still matched by coordinates (after seed C14-j)
+        dscommon.run_family(ctx, "C14", fmt="netcdf", limit=150, always_nontrivial=True,
+                            select_fn=lambda o: o.get("hasClim") and (list(o["clim"]["times"]) != sorted(o["clim"]["times"]) or list(o["clim"]["locs"]) != sorted(o["clim"]["locs"])))
+        dscommon.run_family(ctx, "C14Two", fmt="netcdf", limit=100, always_nontrivial=True, fresh=False,
+                            select_fn=lambda o: o.get("hasClim") and list(o["clim"]["times"]) != sorted(o["clim"]["times"]))
         dscommon.run_family(ctx, "C14Range", fmt="text", limit=80, fresh=False, always_nontrivial=True)
         _legend(ctx, "C14Two", 40)
         _legend(ctx, "C14", 20)
